@@ -431,7 +431,7 @@ def good():
     for k in range(3):
         loop.enqueue_signal(Ping("S", 10 + k))
     res["good"] = "submitted"
-t2 = threading.Thread(target=good, daemon=True); t2.start(); t2.join(10)
+t2 = threading.Thread(target=good, daemon=True); t2.start(); t2.join(40)
 res["good_alive"] = t2.is_alive()
 if not t2.is_alive():
     def drain():
@@ -439,7 +439,7 @@ if not t2.is_alive():
         while not loop._active_queue.empty():
             loop.process_signals()
         res["drained"] = True
-    t3 = threading.Thread(target=drain, daemon=True); t3.start(); t3.join(10)
+    t3 = threading.Thread(target=drain, daemon=True); t3.start(); t3.join(40)
 res["dispatched"] = got
 print(json.dumps(res)); sys.stdout.flush()
 import os; os._exit(0)
